@@ -87,6 +87,13 @@ StallViolations(e) ==
   \cup (IF e.deltaMs <= 45000 /\ (e.sess # 1 \/ Cnt(e.reg, "e1") # 1 \/ Cnt(e.adv, "e1") # 1 \/ Cnt(e.gos, "e1") # 1)
         THEN {"RegistryIsOpenConns"} ELSE {})
 
+\* a request that could not open a stream to a connected listener (its path was congested to a standstill)
+\* is a failed dial, not the end of the connection: afterwards the listener is still registered and served
+BacklogViolations(e) ==
+  (IF e.sess # 1 \/ Cnt(e.reg, "e1") # 1 \/ Cnt(e.adv, "e1") # 1 \/ Cnt(e.gos, "e1") # 1
+   THEN {"RegistryIsOpenConns"} ELSE {})
+  \cup (IF e.status # 200 THEN {"ConnectedIsServed"} ELSE {})
+
 TraceInit == l = 1 /\ viol = {} /\ drift = 0 /\ cands = {InitState}
 TraceNext ==
   /\ l <= Len(Log)
@@ -95,6 +102,7 @@ TraceNext ==
      IF e.op = "Reset" THEN cands' = {InitState} /\ viol' = {} /\ drift' = drift
      ELSE IF e.op = "Expiry" THEN cands' = cands /\ viol' = ExpiryViolations(e) /\ drift' = drift
      ELSE IF e.op = "Stall" THEN cands' = cands /\ viol' = StallViolations(e) /\ drift' = drift
+     ELSE IF e.op = "Backlog" THEN cands' = cands /\ viol' = BacklogViolations(e) /\ drift' = drift
      ELSE LET loose == UNION {Loose(s, e) : s \in cands}
               good == UNION {{t \in Loose(s, e) : OutcomeOK(s, t, e) /\ Matches(t, e)} : s \in cands}
               nxt == IF good # {} THEN good
